@@ -308,12 +308,12 @@ theorem blockSizeFor_some (cfg : Cfg) (s : State) (w0 : List MEntry) (c : Cid) (
   · split at h
     · unfold getBlockSize at h
       split at h
-      · rename_i hc; exact hc.1
+      · rename_i hc; exact hc
       · simp at h
     · simp at h
 
 theorem blockSizeFor_none (cfg : Cfg) (s : State) (w0 : List MEntry) (e : MEntry) (he : e ∈ w0)
-    (h : blockSizeFor cfg s w0 e.cid = none) : s.has e.cid = false ∨ cfg.size e.cid = 0 := by
+    (h : blockSizeFor cfg s w0 e.cid = none) : s.has e.cid = false := by
   unfold blockSizeFor at h
   simp only at h
   split at h
@@ -323,15 +323,8 @@ theorem blockSizeFor_none (cfg : Cfg) (s : State) (w0 : List MEntry) (e : MEntry
     · unfold getBlockSize at h
       split at h
       · simp at h
-      · rename_i hg
-        by_cases hh : s.has e.cid = true
-        · right
-          by_cases hz : cfg.size e.cid = 0
-          · exact hz
-          · exact absurd ⟨hh, hz⟩ hg
-        · left; simpa using hh
+      · rename_i hg; simpa using hg
     · rename_i hw
-      -- e is in neither class: impossible unless it is a have with noReplace, then `hc` gives absence
       have hin : (w0.any fun x => x.cid = e.cid && (decide (cfg.replace = 0) && decide (x.wt = .have))) = true := by
         have : (w0.any fun x => x.cid = e.cid && !(decide (cfg.replace = 0) && decide (x.wt = .have))) = false := by
           simpa using hw
@@ -339,7 +332,6 @@ theorem blockSizeFor_none (cfg : Cfg) (s : State) (w0 : List MEntry) (e : MEntry
         refine ⟨e, he, ?_⟩
         have h2 := (List.any_eq_false.mp this) e he
         simpa using h2
-      left
       by_cases hh : s.has e.cid = true
       · exact absurd ⟨hin, hh⟩ hc
       · simpa using hh
@@ -358,7 +350,7 @@ theorem specA_msg (cfg : Cfg) (s : State) (sp : Spec) (p : Peer) (full : Bool) (
     (p' : Peer) (c : Cid) :
     (specStep cfg s sp (.msg p full es)).A p' c =
       if p' = p then
-        sp.A p c || es.any fun e => isAsk cfg e && e.cid == c && (cfg.denied p c || !s.has c || cfg.size c == 0)
+        sp.A p c || es.any fun e => isAsk cfg e && e.cid == c && (cfg.denied p c || !s.has c)
       else sp.A p' c := by
   simp [specStep, hne]
 
@@ -490,15 +482,15 @@ theorem msg_que (cfg : Cfg) (s : State) (sp : Spec) (p : Peer) (full : Bool) (es
     intro c hc
     show (specStep cfg s sp (.msg p full es)).A p c = true
     rw [specA_msg cfg s sp p full es hne, if_pos rfl]; simp [hc]
-  have A_new : ∀ e ∈ es, isAsk cfg e = true → (cfg.denied p e.cid = true ∨ s.has e.cid = false ∨ cfg.size e.cid = 0) →
+  have A_new : ∀ e ∈ es, isAsk cfg e = true → (cfg.denied p e.cid = true ∨ s.has e.cid = false) →
       sp'.A p e.cid = true := by
     intro e he ha hx
     show (specStep cfg s sp (.msg p full es)).A p e.cid = true
     rw [specA_msg cfg s sp p full es hne, if_pos rfl]
     have : (es.any fun x => isAsk cfg x && x.cid == e.cid &&
-        (cfg.denied p e.cid || !s.has e.cid || cfg.size e.cid == 0)) = true := by
+        (cfg.denied p e.cid || !s.has e.cid)) = true := by
       refine List.any_eq_true.mpr ⟨e, he, ?_⟩
-      rcases hx with hx | hx | hx <;> simp [ha, hx]
+      rcases hx with hx | hx <;> simp [ha, hx]
     simp [this]
   have D_mono : ∀ c, sp.D p c = true → sp'.D p c = true := by
     intro c hc
@@ -832,12 +824,12 @@ namespace C36
 open AMap
 
 /-- where the ghost flag `A p c` comes from: it was set already, or some message of `p` in the history asked
-for `c` when the filter denied it, the block was absent, or the block has length zero -/
+for `c` when the filter denied it or the block was absent -/
 theorem specA_origin (cfg : Cfg) (p : Peer) (c : Cid) (ops : List Op) :
     ∀ (s : State) (sp : Spec), (runBoth cfg s sp ops).2.A p c = true →
       sp.A p c = true ∨
       ∃ pre full es post, ops = pre ++ Op.msg p full es :: post ∧ (∃ e ∈ es, isAsk cfg e = true ∧ e.cid = c) ∧
-        (cfg.denied p c = true ∨ (run cfg s pre).has c = false ∨ cfg.size c = 0) := by
+        (cfg.denied p c = true ∨ (run cfg s pre).has c = false) := by
   induction ops with
   | nil => intro s sp h; left; exact h
   | cons op r ih =>
@@ -861,10 +853,9 @@ theorem specA_origin (cfg : Cfg) (p : Peer) (c : Cid) (ops : List Op) :
               obtain ⟨e, he, hx⟩ := List.any_eq_true.mp h1
               simp only [Bool.and_eq_true, beq_iff_eq, Bool.or_eq_true, Bool.not_eq_true'] at hx
               refine ⟨[], full, es, r, rfl, ⟨e, he, hx.1.1, hx.1.2⟩, ?_⟩
-              rcases hx.2 with (hx | hx) | hx
+              rcases hx.2 with hx | hx
               · left; exact hx
-              · right; left; exact hx
-              · right; right; exact hx
+              · right; exact hx
           · left; exact h1
       | add c' => left; exact h1
       | rm c' => left; exact h1
